@@ -256,7 +256,7 @@ theorem calls_toProg_qs {α} {P : Req → Prop} {C : Call → Prop} {t : Ask α}
 /-- The calls the evaluation of the tree `e` can issue: those of `exec(argv, -1)` only if `e` has a `command`
 condition, `stat` only if it has an `isdirectory` or a file-time `date` condition. -/
 def EvalCallOf (e : Expr) (c : Call) : Prop :=
-  (hasCommand e = true ∧ (c = .openPath (ofString "/dev/null") ∨ c = .fork ∨ c = .waitpid ∨ ∃ h, c = .close h)) ∨
+  (hasCommand e = true ∧ (c = .openPath (ofString "/dev/null") ∨ c.isFork = true ∨ c = .waitpid ∨ ∃ h, c = .close h)) ∨
   ((hasIsDir e = true ∨ hasFileDate e = true) ∧ ∃ p, c = .stat p)
 
 theorem EvalCallOf.evalCall {e : Expr} {c : Call} (h : EvalCallOf e c) : EvalCall c := by
@@ -272,7 +272,7 @@ theorem evalP_calls_of (env : Env) (e : Expr) (m : Msg) (fl : MFlags) :
   refine calls_toProg_qs (evalT_qs env m e 0 m _) fun q hq => ?_
   cases q with
   | command av =>
-    exact Calls.bind (calls_mono' execCall_execP fun c hc => .inl ⟨hq, hc⟩) fun _ => True.intro
+    exact Calls.bind (calls_mono' (execCall_execP _) fun c hc => .inl ⟨hq, hc⟩) fun _ => True.intro
   | isDir p => exact ⟨.inr ⟨.inl hq, p, rfl⟩, fun _ => True.intro⟩
   | fileTime p f => exact ⟨.inr ⟨.inr hq.1, p, rfl⟩, fun _ => True.intro⟩
 
